@@ -140,6 +140,7 @@ def run(ctx):
     prop_c06.revision_dispatch(ctx, F)
     prop_c06.password_truncation(ctx, F)
     prop_c06.revision_not_version(ctx, F)
+    prop_c06.identity_only_by_name(ctx, F)
     ca, ka = sibling(ctx, F, "encryption::encrypt_object", "encryption::decrypt_object", "object")
     ctx.floor("R-SIB", "byte constants of encrypt_object", len(ka), 4)
     for t in (b"XRef", b"Crypt", b"DecodeParms"):
